@@ -147,9 +147,15 @@ where
     ```
     */
     pub fn new(target: D, proposal: Q, initial_states: Vec<Vec<S>>) -> Self {
+        // Every chain gets its own proposal stream: a plain clone would copy the
+        // proposal's generator, making all chains draw identical proposal noise.
+        let mut seeder = SmallRng::from_os_rng();
         let chains = initial_states
             .into_iter()
-            .map(|s| MHMarkovChain::new(target.clone(), proposal.clone(), s))
+            .map(|s| {
+                let chain_proposal = proposal.clone().set_seed(seeder.random::<u64>());
+                MHMarkovChain::new(target.clone(), chain_proposal, s)
+            })
             .collect();
         Self {
             target,
@@ -187,7 +193,11 @@ where
     pub fn seed(mut self, seed: u64) -> Self {
         for (i, chain) in self.chains.iter_mut().enumerate() {
             let chain_seed = seed.wrapping_add(i as u64).wrapping_add(1);
-            chain.rng = SmallRng::seed_from_u64(chain_seed)
+            chain.rng = SmallRng::seed_from_u64(chain_seed);
+            // The proposal stream of a chain is seeded half the seed space away from every
+            // acceptance stream, so no two generators of the sampler are seeded identically.
+            let proposal_seed = chain_seed.wrapping_add(1 << 63);
+            chain.proposal = chain.proposal.clone().set_seed(proposal_seed);
         }
         self
     }
